@@ -28,7 +28,7 @@ RULE = ('merges of generated probe directories: corpus (probe with exactly one s
         'and 2 probes of up to 4 spikes) with pseudo-random ids, then seeded random merges of 1..4 probes x 1..30 spikes '
         '(ties inside and across probes, id gaps, curated clusters, time/id/amplitude dtypes, (n,1) vectors, TSV files in '
         'all/some/none, unsorted probe, 0..2 trailing templates without spikes in any probe). On half of the generated merges '
-        '(and 10 corpus cases that run first) the CALLER\'s side is drawn too: directory names from 8 pools (imec<n>, probe<n> '
+        '(and 9 corpus cases that run first) the CALLER\'s side is drawn too: directory names from 8 pools (imec<n>, probe<n> '
         'with text order != numeric order, nested <x>/ks of equal base name, mixed case, digits) passed in text-sorted, '
         'text-reversed or arbitrary order, as str / Path / relative path / trailing separator / tuple, output directory '
         'default / named before-between-after the probes / nested / already existing, explicit probe_info or the default '
